@@ -408,8 +408,11 @@ class Interp:
 
     def is_subclass(self, run: Run, cname: str, target: str) -> Optional[bool]:
         """None = unknown (one of the classes is opaque)."""
-        if target in ("builtins.IOError", "builtins.EnvironmentError"):
-            target = "builtins.OSError"
+        # aliases (not subclasses): socket.error IS OSError, socket.timeout IS TimeoutError on the analysed Python (>= 3.10)
+        alias = {"builtins.IOError": "builtins.OSError", "builtins.EnvironmentError": "builtins.OSError",
+                 "socket.error": "builtins.OSError", "socket.timeout": "builtins.TimeoutError", "select.error": "builtins.OSError"}
+        target = alias.get(target, target)
+        cname = alias.get(cname, cname)
         seen = set()
         stack = [cname]
         known = True
